@@ -169,3 +169,19 @@ Definition blk_shadow : list stmt := [SDecl nx TNum (ENum 7); SBreak].
 Definition blk_assign : list stmt := [SAssign vx (ENum 3)].
 Definition blk_decl_assign : list stmt := [SDecl nx TNum (ENum 3); SAssign vx (ENum 4)].
 Definition call_f9 : list expr := [ENum 9].
+
+(* x := 1
+   for i := range 2
+     print x+1 i                  // the global x in every iteration: "2 0", "2 1"
+     x := "a"                     // declared in the iteration's own scope, gone at its end
+   end
+   print x                        // 1
+   (with one scope for all iterations the second iteration would read the string x) *)
+Definition forscope_prog : program :=
+  {| p_funcs := []; p_handlers := [];
+     p_stmts :=
+       [ SDecl nx TNum (ENum 1);
+         SFor (Some ni) TNum (RStep None (ENum 2) None)
+           [ SCallStmt nprint [EBin BPlus TNum vx (ENum 1); vi];
+             SDecl nx TStr (EStr (s_ "a")) ];
+         SCallStmt nprint [vx] ] |}.
